@@ -22,6 +22,14 @@ def configs(tier):
     return cfgs
 
 
+def classify(case, db, cfg, rel, why):
+    if case.family == "inline" and "qual=inline" in case.desc and any("RemoveRedundantRelationsTransformer" in x for x in cfg.extra):
+        for e in load_findings(PID):
+            if e["id"] == "C04-inline-needs-redundant-removal":
+                return e
+    return None
+
+
 def check(tier):
     rep = Report(PID, tier, "exploration")
     dl = Deadline(480 if tier == "quick" else 3300)
@@ -35,8 +43,17 @@ def check(tier):
         diff.differential(rep, cases, d2, cfgs, name, batch_size=100, deadline=dl)
         rep.sample({"family": name, "cases": len(cases), "databases": len(d2), "configurations": len(cfgs)}, cap=20)
     inl = gen4.family_inline(tier)
-    icfg = cfgs[:2] + [cfgs[-1]] if tier == "quick" else cfgs[:11]
-    diff.differential(rep, inl, gen.dbs_core_quick()[-8:], icfg, "inline", batch_size=1 if False else 60, deadline=dl, on_reject="count")
+    idbs = gen.dbs_core_quick()[-8:]
+    safe = [c for c in cfgs if not any("RemoveRedundantRelationsTransformer" in x for x in c.extra)]
+    risky = [c for c in cfgs if any("RemoveRedundantRelationsTransformer" in x for x in c.extra)]
+    if tier == "quick":
+        safe, risky = safe[:3], risky[-1:]
+    diff.differential(rep, inl, idbs, safe, "inline", batch_size=60, deadline=dl, on_reject="count")
+    plain = [c for c in inl if "qual=inline" not in c.desc]
+    marked = [c for c in inl if "qual=inline" in c.desc]
+    diff.differential(rep, plain, idbs, risky, "inline-rrr", batch_size=60, deadline=dl, on_reject="count")
+    # the recorded finding (inline + RemoveRedundantRelations disabled) aborts: one program per run so that each is classified
+    diff.differential(rep, marked, idbs[-2:], risky, "inline-rrr-marked", batch_size=1, deadline=dl, on_reject="count", classify=classify)
     rep.sample({"family": "inline", "cases": len(inl), "example": inl[100].desc})
     rep.set("rule", "every program of the families x every listed pass configuration x databases, compared with the reference model; inline family = "
             "8 helper definitions x 11 use sites x {none, inline, no_inline}; annotation/use-site combinations that souffle's checker rejects are "
